@@ -163,9 +163,9 @@ ROWS = {
        'array, list, file, device path); datetime arithmetic modelled; five probed variant flags with counter-example theorems; device path modelled (Model/FruDevice) and tied; translator also recognises the dispatch, length-guard and area-length shapes; device histories on one long-lived Ipmi object: image A read, contents replaced by image B behind the back of the library / by a complete / a faulted-and-resumed / a tail-first write_fru_data, other FRU ids in between, read again => B\'s view',
   tech='Lean 4 proof (parser/encoder inversion by induction on fields and records; checksum algebra) + translator + differential correspondence'),
  'C16': dict(
-  text='47 Lean theorems: for each of the eight record kinds parse(encode r) = r for every abstract record; 10-bit M, B, '
+  text='52 Lean theorems: for each of the eight record kinds parse(encode r) = r for every abstract record; 10-bit M, B, '
        'accuracy and 4-bit exponents are reassembled and sign-extended for all byte values; the type byte alone '
-       'selects the record class; BCD plus id strings in all sixteen codes of IPMI 43.15 (the SDR table is regenerated from TypeLengthString.SDR_BCD_PLUS, theorem bcd_plus_sdr_table); channel number [7:4] of the FRU device locator and of the MC confirmation record with device revision [3:0]. Every mask / shift / or / sign-extension expression of the seven _from_data methods, '
+       'selects the record class; BCD plus id strings in all sixteen codes of IPMI 43.15 (the SDR table is regenerated from TypeLengthString.SDR_BCD_PLUS, theorem bcd_plus_sdr_table); channel number [7:4] of the FRU device locator and of the MC confirmation record with device revision [3:0]; the record key is reported sub-field by sub-field: sensor key byte 7 gives channel_number [7:4] and owner_lun [1:0] on full / compact / event-only records, FRU locator key byte 8 gives logical_physical (the flag), access_lun and private_bus_id (fru_access_byte_all, sensor_key_all, sensor_key_channel_distinguished; as-shipped counter-examples). Every mask / shift / or / sign-extension expression of the seven _from_data methods, '
        '_common_record_key, _device_id_string, _convert_complement (sdr.py) and of TypeLengthString._from_data / '
        '_unpack6bitascii (fields.py) is regenerated from the Python AST on every run (Gen/SdrExpr.lean) and proved '
        'equal to the expression the model uses at that place (gen_* theorems), together with the order and sizes of '
